@@ -13,9 +13,13 @@ const P: &str = "C07";
 
 pub fn gen(seed: u64, tier: Tier) -> ScenarioSpec {
     let mut rng = Rng::new(seed);
+    // rare: a game of more than 65 536 frames (an archive writer or reader may treat such a game in pieces);
+    // swept only around the places where a piece could end
+    let huge = rng.chance(1, if tier == Tier::Thorough { 150 } else { 60 });
     let cfg = GenCfg {
         force_end: true,
-        size: Some(match rng.below(10) {
+        size: Some(match if huge { 99 } else { rng.below(10) } {
+            99 => SizeClass::Huge,
             0..=3 => SizeClass::Tiny,
             4..=8 => SizeClass::Small,
             _ => {
@@ -29,13 +33,22 @@ pub fn gen(seed: u64, tier: Tier) -> ScenarioSpec {
         ..Default::default()
     };
     let mut rec = gen::gen_recorder(&mut rng, &cfg);
+    if huge {
+        rec.gecko = None;
+        if rec.ports.len() > 2 {
+            rec.ports.truncate(2);
+        }
+        for f in rec.frames.iter_mut() {
+            f.items = 0;
+        }
+    }
     if let Some(g) = rec.gecko.as_mut() {
         // keep files small enough for complete sweeps most of the time
         if g.len > 3000 && rng.chance(3, 4) {
             g.len = 1 + rng.below(1500) as u32;
         }
     }
-    if rng.chance(1, 5) {
+    if !huge && rng.chance(1, 5) {
         // declared-but-unknown events are part of a well-formed file; some collide with the markers after the raw element
         rec.extras.unknown = super::c17::gen_unknown(&mut rng, super::c17::events_hint(&rec), 2);
         for u in rec.extras.unknown.iter_mut() {
@@ -59,10 +72,18 @@ pub fn gen(seed: u64, tier: Tier) -> ScenarioSpec {
     spec.knobs.insert("slpp_samples".into(), if tier == Tier::Thorough { 4000 } else { 300 });
     spec.knobs.insert("slp_samples".into(), if tier == Tier::Thorough { 3000 } else { 300 });
     spec.knobs.insert("cut_seed".into(), (rng.next_u64() >> 1) as i64);
+    if huge {
+        spec.knobs.insert("huge".into(), 1);
+        spec.knobs.insert("slp_full_limit".into(), 0);
+        spec.knobs.insert("slpp_full_limit".into(), 0);
+        spec.knobs.insert("slp_samples".into(), 24);
+        spec.knobs.insert("slpp_samples".into(), 40);
+        spec.stream = StreamSpec::default();
+    }
     spec
 }
 
-fn cut_points(len: usize, full_limit: usize, samples: usize, anchors: &[usize], rng: &mut Rng) -> (Vec<usize>, bool) {
+fn cut_points(len: usize, full_limit: usize, samples: usize, anchors: &[usize], rng: &mut Rng, tail: usize) -> (Vec<usize>, bool) {
     if len <= full_limit {
         return ((0..len).collect(), true);
     }
@@ -79,7 +100,7 @@ fn cut_points(len: usize, full_limit: usize, samples: usize, anchors: &[usize], 
         v.push(rng.usize_below(len));
     }
     // the tail (padding, footer, terminator) completely
-    for x in len.saturating_sub(600)..len {
+    for x in len.saturating_sub(tail)..len {
         v.push(x);
     }
     for x in 0..len.min(64) {
@@ -90,6 +111,30 @@ fn cut_points(len: usize, full_limit: usize, samples: usize, anchors: &[usize], 
     (v, false)
 }
 
+/// bodyLength of an Arrow IPC Message flatbuffer (table field 3), or None if the bytes do not look like one
+fn ipc_body_len(meta: &[u8]) -> Option<usize> {
+    let u32_at = |o: usize| meta.get(o..o + 4).map(|b| u32::from_le_bytes([b[0], b[1], b[2], b[3]]) as usize);
+    let u16_at = |o: usize| meta.get(o..o + 2).map(|b| u16::from_le_bytes([b[0], b[1]]) as usize);
+    let table = u32_at(0)?;
+    let soff = meta.get(table..table + 4).map(|b| i32::from_le_bytes([b[0], b[1], b[2], b[3]]))?;
+    let vt = (table as i64 - soff as i64) as usize;
+    let vt_len = u16_at(vt)?;
+    if vt_len < 4 + 2 * 4 {
+        return Some(0);
+    }
+    let off = u16_at(vt + 4 + 2 * 3)?;
+    if off == 0 {
+        return Some(0);
+    }
+    let b = meta.get(table + off..table + off + 8)?;
+    let n = i64::from_le_bytes([b[0], b[1], b[2], b[3], b[4], b[5], b[6], b[7]]);
+    if n < 0 {
+        None
+    } else {
+        Some(n as usize)
+    }
+}
+
 pub fn run(spec: &ScenarioSpec, ctx: &mut Ctx) -> Result<(), Violation> {
     let m = recorder::build(&spec.recorder);
     shape_of_model(ctx, &m, spec);
@@ -97,7 +142,11 @@ pub fn run(spec: &ScenarioSpec, ctx: &mut Ctx) -> Result<(), Violation> {
     let mut rng = Rng::new(spec.knob("cut_seed") as u64);
     let edges = m.edges();
     // ---- .slp: every proper prefix, with and without skip-frames ----
-    let (cuts, complete) = cut_points(m.bytes.len(), spec.knob("slp_full_limit").max(0) as usize, spec.knob("slp_samples").max(1) as usize, &edges, &mut rng);
+    let huge = spec.knob("huge") != 0;
+    ctx.probe_if(huge, "game of more than 65 536 frames, swept around message boundaries");
+    // (a huge game has hundreds of thousands of event boundaries: the last few and a sample)
+    let slp_anchors: Vec<usize> = if huge { edges.iter().rev().take(6).chain(edges.iter().take(6)).copied().collect() } else { edges.clone() };
+    let (cuts, complete) = cut_points(m.bytes.len(), spec.knob("slp_full_limit").max(0) as usize, spec.knob("slp_samples").max(1) as usize, &slp_anchors, &mut rng, if huge { 24 } else { 600 });
     ctx.probe_if(complete, "complete sweep of every byte offset of a .slp");
     for skip in [false, true] {
         let opts = OptsSpec { skip_frames: skip, compute_hash: spec.opts.compute_hash };
@@ -138,7 +187,7 @@ pub fn run(spec: &ScenarioSpec, ctx: &mut Ctx) -> Result<(), Violation> {
     expect_ok(P, "peppi::write", wz.res)?;
     let z = wz.data;
     let uncut = expect_ok(P, "peppi::read(uncut)", read_slpp(&z, &StreamSpec::default(), false).res)?;
-    let mut anchors: Vec<usize> = (0..z.len()).step_by(512).collect();
+    let mut anchors: Vec<usize> = if huge { vec![] } else { (0..z.len()).step_by(512).collect() };
     if let Ok(ar) = crate::archive::Archive::open(&z) {
         for e in &ar.entries {
             anchors.push(e.data_off + e.size);
@@ -151,12 +200,14 @@ pub fn run(spec: &ScenarioSpec, ctx: &mut Ctx) -> Result<(), Violation> {
                     let cont = u32::from_le_bytes([d[p], d[p + 1], d[p + 2], d[p + 3]]);
                     let (mlen, hdr) = if cont == 0xFFFF_FFFF { (u32::from_le_bytes([d[p + 4], d[p + 5], d[p + 6], d[p + 7]]) as usize, 8) } else { (cont as usize, 4) };
                     if mlen == 0 || mlen > d.len() {
+                        ctx.probe_if(mlen == 0 && cont == 0xFFFF_FFFF, "cut anchors cover every IPC message boundary up to the end-of-stream marker");
                         break;
                     }
                     anchors.push(e.data_off + p + hdr);
                     anchors.push(e.data_off + p + hdr + mlen);
-                    // body length is not known without parsing the flatbuffer; step by the metadata only
-                    p += hdr + mlen;
+                    // the message body follows its metadata; its length is a field of the flatbuffer Message table
+                    let body = ipc_body_len(&d[(p + hdr).min(d.len())..(p + hdr + mlen).min(d.len())]).unwrap_or(0);
+                    p += hdr + mlen + body;
                     if anchors.len() > 4000 {
                         break;
                     }
@@ -164,7 +215,7 @@ pub fn run(spec: &ScenarioSpec, ctx: &mut Ctx) -> Result<(), Violation> {
             }
         }
     }
-    let (zcuts, zcomplete) = cut_points(z.len(), spec.knob("slpp_full_limit").max(0) as usize, spec.knob("slpp_samples").max(1) as usize, &anchors, &mut rng);
+    let (zcuts, zcomplete) = cut_points(z.len(), spec.knob("slpp_full_limit").max(0) as usize, spec.knob("slpp_samples").max(1) as usize, &anchors, &mut rng, if huge { 48 } else { 600 });
     ctx.probe_if(zcomplete, "complete sweep of every byte offset of a .slpp");
     for &k in &zcuts {
         let ro = read_slpp(&z[..k], &spec.stream, false);
